@@ -389,6 +389,106 @@ def r07f(ctx):
         raise AnalysisError("R07f: no positional insertion of a column declaration found in Table")
 
 
+def r07g(ctx):
+    """Trimming the column declarations removes exactly the surplus.
+
+    Table.rstrip and optimize_width walk the `table:table-column` elements from the right with a count D of columns still to remove.  For an
+    element repeated R times: if R > D it keeps R − D (done); otherwise the element goes and D − R columns remain to be removed.  Both
+    quantities are evaluated to affine forms over (R, D) from the statements of the loop: the repeat written to a kept element must be
+    R − D and the count carried to the next element D − R.  Any other arithmetic leaves the declared columns narrower or wider than the rows.
+    """
+    from .c01 import Aff
+    repo = ctx.repo
+    ctx.rule("R07g", "column trimming: a kept element keeps R - D columns, a removed one leaves D - R to remove (affine forms)", floor=4)
+    R, D = Aff({"R": 1}), Aff({"D": 1})
+    n = 0
+    for q in ("Table.rstrip", "Table._optimize_width_adapt_columns"):
+        f = repo.func(q)
+        for loop in [l for l in walk_no_nested(f.node) if isinstance(l, ast.For) and isinstance(l.target, ast.Name)]:
+            cv = loop.target.id
+            # the loop that edits the repeat of / deletes its own item
+            setrep = [a for a in ast.walk(loop) if isinstance(a, ast.Assign) and isinstance(a.targets[0], ast.Attribute) and a.targets[0].attr == "repeated"
+                      and isinstance(a.targets[0].value, ast.Name) and a.targets[0].value.id == cv]
+            dels = [c for c in ast.walk(loop) if isinstance(c, ast.Call) and call_name(c) == "delete" and any(isinstance(x, ast.Name) and x.id == cv for x in c.args)]
+            if not setrep or not dels:
+                continue
+            # the remaining-count local: read in the loop, defined before it, re-assigned in the deleting arm
+            inner_assigned = {a.targets[0].id for a in ast.walk(loop) if isinstance(a, ast.Assign) and isinstance(a.targets[0], ast.Name)} | \
+                             {a.target.id for a in ast.walk(loop) if isinstance(a, ast.AugAssign) and isinstance(a.target, ast.Name)}
+            outer_defined = {a.targets[0].id for a in walk_no_nested(f.node) if isinstance(a, ast.Assign) and isinstance(a.targets[0], ast.Name) and a.lineno < loop.lineno}
+            dvars = inner_assigned & outer_defined
+            if len(dvars) != 1:
+                raise AnalysisError(f"R07g: the remaining-count local of the trim loop in {q} is not unique ({sorted(dvars)})")
+            dv = next(iter(dvars))
+
+            def ev(e, env):
+                if isinstance(e, ast.Constant) and isinstance(e.value, int) and not isinstance(e.value, bool):
+                    return Aff(c=e.value)
+                if isinstance(e, ast.BoolOp) and isinstance(e.op, ast.Or) and isinstance(e.values[0], ast.Attribute) and e.values[0].attr == "repeated" \
+                        and isinstance(e.values[0].value, ast.Name) and e.values[0].value.id == cv:
+                    return R
+                if isinstance(e, ast.Name):
+                    return env.get(e.id)
+                if isinstance(e, ast.UnaryOp) and isinstance(e.op, ast.USub):
+                    a1 = ev(e.operand, env)
+                    return None if a1 is None else -a1
+                if isinstance(e, ast.BinOp) and isinstance(e.op, (ast.Add, ast.Sub)):
+                    a1, b1 = ev(e.left, env), ev(e.right, env)
+                    if a1 is None or b1 is None:
+                        return None
+                    return a1 + b1 if isinstance(e.op, ast.Add) else a1 - b1
+                return None
+
+            results = {"kept": [], "carried": []}
+
+            def run_block(stmts, env):
+                for st in stmts:
+                    if isinstance(st, ast.Assign) and len(st.targets) == 1:
+                        t = st.targets[0]
+                        if isinstance(t, ast.Name):
+                            v = ev(st.value, env)
+                            if v is None:
+                                env.pop(t.id, None)
+                            else:
+                                env[t.id] = v
+                        elif st in setrep:
+                            results["kept"].append((st, ev(st.value, env)))
+                    elif isinstance(st, ast.AugAssign) and isinstance(st.target, ast.Name) and isinstance(st.op, (ast.Add, ast.Sub)):
+                        a1, b1 = env.get(st.target.id), ev(st.value, env)
+                        if a1 is None or b1 is None:
+                            env.pop(st.target.id, None)
+                        else:
+                            env[st.target.id] = a1 + b1 if isinstance(st.op, ast.Add) else a1 - b1
+                    elif isinstance(st, ast.If):
+                        ea, eb = dict(env), dict(env)
+                        run_block(st.body, ea)
+                        run_block(st.orelse, eb)
+                        deleting_a = any(d_ in list(ast.walk(s_)) for s_ in st.body for d_ in dels)
+                        deleting_b = any(d_ in list(ast.walk(s_)) for s_ in st.orelse for d_ in dels)
+                        if deleting_a:
+                            results["carried"].append((st, ea.get(dv)))
+                        if deleting_b:
+                            results["carried"].append((st, eb.get(dv)))
+
+            run_block(loop.body, {dv: D})
+            for st, got in results["kept"]:
+                n += 1
+                ok = got is not None and got == R - D
+                ctx.instance("R07g", f"{f.file}:{f.ident}", f"kept element: repeat = {got!r} (must be R - D)", ok=ok, nontrivial=True, line=st.lineno)
+                if not ok:
+                    ctx.report("R07g", f, st, f"{norm(st, 40)} = {got!r}", f"{q}: a column element that survives the trim keeps {got!r} columns instead of R - D: the declared width is wrong afterwards")
+            for st, got in results["carried"][:1]:
+                n += 1
+                ok = got is not None and got == D - R
+                ctx.instance("R07g", f"{f.file}:{f.ident}", f"removed element: {dv} becomes {got!r} (must be D - R)", ok=ok, nontrivial=True, line=st.lineno)
+                if not ok:
+                    ctx.report("R07g", f, st, f"`{dv}` after deleting an element = {got!r}",
+                               f"{q}: after a whole column element (R columns) is deleted, the number of columns still to remove becomes {got!r} instead of D - R: further "
+                               f"elements are trimmed too much or too little, and rows end up wider (or narrower) than the declared columns")
+    if n == 0:
+        raise AnalysisError("R07g: column trim loops not found")
+
+
 def run(ctx):
     tom = run_tom(ctx.repo)
     r07a(ctx)
@@ -397,6 +497,7 @@ def run(ctx):
     r07d(ctx)
     r07e(ctx)
     r07f(ctx)
+    r07g(ctx)
 
 
 from ..selftest import Seed, unparse_seed  # noqa: E402
@@ -405,6 +506,12 @@ _T = "src/odfdo/table.py"
 _R = "src/odfdo/row.py"
 _C = "src/odfdo/cell.py"
 SEEDS = [
+    Seed("rstrip: remaining count accumulates instead of being replaced", "fault", _T,
+         "        diff = column_width - max_width\n        if diff > 0:\n            for column in reversed(columns):\n                repeated = column.repeated or 1\n                repeated = repeated - diff\n                if repeated > 0:\n                    column.repeated = repeated\n                    break\n                else:\n                    column.parent.delete(column)\n                    diff = -repeated\n",
+         "        diff = column_width - max_width\n        if diff > 0:\n            for column in reversed(columns):\n                repeated = column.repeated or 1\n                repeated = repeated - diff\n                if repeated > 0:\n                    column.repeated = repeated\n                    break\n                else:\n                    column.parent.delete(column)\n                    diff -= repeated\n", "R07g"),
+    Seed("rstrip: kept element keeps one column too many", "fault", _T,
+         "        diff = column_width - max_width\n        if diff > 0:\n            for column in reversed(columns):\n                repeated = column.repeated or 1\n                repeated = repeated - diff\n                if repeated > 0:\n                    column.repeated = repeated\n",
+         "        diff = column_width - max_width\n        if diff > 0:\n            for column in reversed(columns):\n                repeated = column.repeated or 1\n                repeated = repeated - diff\n                if repeated > 0:\n                    column.repeated = repeated + 1\n", "R07g"),
     Seed("table name checked before it is stripped", "fault", _T, '    name = name.strip()\n    if not name:\n        raise ValueError("Empty name not allowed.")\n    if match := _RE_TABLE_NAME.search(name):\n        raise ValueError(f"Character {match.group()!r} not allowed.")\n    return name', '    if match := _RE_TABLE_NAME.search(name):\n        raise ValueError(f"Character {match.group()!r} not allowed.")\n    name = name.strip()\n    if not name:\n        raise ValueError("Empty name not allowed.")\n    return name', "R07e"),
     Seed("table name: regex test before the emptiness test, both after the strip", "neutral", _T, '    name = name.strip()\n    if not name:\n        raise ValueError("Empty name not allowed.")\n    if match := _RE_TABLE_NAME.search(name):\n        raise ValueError(f"Character {match.group()!r} not allowed.")\n    return name', '    name = name.strip()\n    if match := _RE_TABLE_NAME.search(name):\n        raise ValueError(f"Character {match.group()!r} not allowed.")\n    if not name:\n        raise ValueError("Empty name not allowed.")\n    return name'),
     Seed("first column appended after the last child", "fault", _T, "        if not self._cmap:\n            position = 0\n", "        if not self._cmap:\n            position = len(self.children)\n", "R07f"),
